@@ -66,6 +66,13 @@ func registerAll() {
 	reg("L9", "rebalance decision: after a child mutation every success path evaluates child.IsFull / child.IsUnderflow and refreshes the parent's copy of the child header; handles evaluate root.IsFull and the single-child promotion test", ruleL9)
 	reg("L7", "co-update table: a write of a summarised field (element lists, child header tables, inlined flag) is accompanied on every success path by a write of its summary fields (size, count sums), possibly by a same-type callee or by every caller", ruleL7)
 
+	reg("L3", "header flags: setter and getter use the same byte and single-bit mask, disjoint from type/version bits; each slab encoder sets each flag exactly under the state it describes; V1 decoders and the raw-bytes queries consult them", ruleL3)
+	reg("L4", "vocabularies: every CBOR tag emitted by an encoder is dispatched by a decoder (or by the client decoder, by table) and vice versa, tag numbers are distinct, slab kinds emitted == kinds dispatched by DecodeSlab, encoders emit version 1, decoders accept exactly {0,1}", ruleL4)
+
+	reg("L1", "encoder width = size constant: abstract interpretation of every slab/element encoder (fixed-width writes, optional groups, per-entry loop bytes, spliced callees) compared by value with the prefix/stride constants; the only optional group is the sibling link", ruleL1)
+
+	reg("L2", "decoder prefix = in-memory prefix: for every slab literal built by a decoder, the constant part of its size, evaluated per state (root / non-root / inlined), equals what getPrefixSize() returns for that state", ruleL2)
+
 	const tCFG = "CFG path rules on go/ssa (must-precede, edge dominance, loop-iteration coverage, error-edge reachability)"
 	propTable["C01"] = &PropSpec{
 		ID:    "C01",
@@ -129,6 +136,20 @@ func registerAll() {
 		Explanation: "every Storable returned by an exported Array/OrderedMap method is the result of uninlineStorableIfNeeded (so a detached inlined child becomes a stored standalone slab) and that helper uninlines both slab kinds; the mutableElementIndex entry of a removed/overwritten child is deleted, guarded only by identity tests; parent-updater callbacks re-set the child only on paths that passed the true edge of a ValueID.equal test and after a fresh lookup; parentUpdater is assigned only by setParentUpdater and cleared only on the not-found edge of its own invocation.",
 		NotDecided: "that re-validation compares the right element after arbitrary histories; equality of identity after reattachment.",
 		Technique:  "value-flow on return operands, control-dependence slices, edge-restricted reachability in callback closures",
+	}
+	propTable["C06"] = &PropSpec{
+		ID:    "C06",
+		Rules: []string{"L1", "L2", "L7", "L8"},
+		Explanation: "each prefix / stride size constant equals, by value, the number of bytes its encoder writes outside child elements and extra-data sections (abstract interpretation of every slab and element encoder: fixed-width writes, per-entry loop bytes, spliced helper encoders, two-pass element buffer emitted exactly once); the only conditional group of a data-slab encoder is the sibling link and it is exactly the difference between the non-root and root constants (the documented 16-byte saving); the compact inlined-map form has the same inlined prefix and no fixed per-element bytes, so it can only be shorter; decoders start a decoded slab's size from the same prefix getPrefixSize() returns for that state (root / non-root / inlined); every write of an element list or the inlined flag is accompanied by a size update on all success paths.",
+		NotDecided: "that the incremental += / -= bookkeeping sums to the same total on every history (value-level); honesty of client Storable.ByteSize().",
+		Technique:  "abstract interpretation of encoder write widths over go/ssa, per-state constant-part evaluation of decoder size expressions, co-update path rule",
+	}
+	propTable["C07"] = &PropSpec{
+		ID:    "C07",
+		Rules: []string{"L3", "L4", "L1", "X1"},
+		Explanation: "header flags: each setter/getter pair uses the same byte and single-bit mask, disjoint from type and version bits; each slab encoder sets each flag exactly under the state it describes (root <=> extra data, has-pointers <=> HasPointer(), next <=> sibling link, any-size <=> anySize, inlined-slabs <=> collected extra data) and the V1 decoders and raw-bytes queries consult exactly those flags; vocabularies coincide: every CBOR tag emitted is dispatched (in-package or, by table, by the client decoder) and vice versa, tag numbers are distinct, slab kinds emitted equal kinds dispatched by DecodeSlab, encoders emit version 1 and decoders accept exactly versions 0 and 1; encoders use fixed-width heads matching the size constants; decode dispatch covers every element kind.",
+		NotDecided: "byte-for-byte round trip of arbitrary nested content, compact-map ordering, rejection of trailing bytes.",
+		Technique:  "mask/guard checks on go/ssa, AST vocabulary comparison of encoder and decoder sides, encoder width interpretation",
 	}
 	propTable["C08"] = &PropSpec{
 		ID:    "C08",
